@@ -122,6 +122,10 @@ def render(cfg, pkgname):
         fields = ""
         if nd["kind"] == "struct":
             fields = "".join("; F%d %s" % (d, ctype(N[d])) for d in nd["deps"])
+            if nd["deps"] and cfg["set_layout"] % 2 == 1:
+                # (explicit field list in the wire file) a further field whose name differs from a listed one only in
+                # case and that is not listed: wire leaves it alone
+                fields += "; f%d string" % nd["deps"][0]
         if nd["kind"] == "struct":
             src.append("type T%d struct { %s }" % (i, fields.lstrip("; ")))
         else:
